@@ -112,6 +112,47 @@ var externalAllowed = map[string]string{
 	"(*golang.org/x/text/encoding/charmap.Charmap).NewDecoder": "total",
 }
 
+// byteOrderWidth: octets touched by a fixed-width accessor of encoding/binary's byte orders (0: not one).
+func byteOrderWidth(f *ssa.Function) int64 {
+	name := f.String()
+	for _, ord := range []string{"bigEndian", "littleEndian"} {
+		for _, m := range []string{"Uint", "PutUint"} {
+			for _, w := range []int64{16, 32, 64} {
+				if name == fmt.Sprintf("(encoding/binary.%s).%s%d", ord, m, w) {
+					return w / 8
+				}
+			}
+		}
+	}
+	return 0
+}
+
+// byteOrderArgOK: the slice argument of the accessor is the input, a constant-offset tail of it or a constant
+// window of it, and the dominating length guard leaves the octets the accessor touches.
+func byteOrderArgOK(d *decodeCtx, call *ssa.Call, need int64) bool {
+	args := call.Common().Args
+	if len(args) < 2 {
+		return false
+	}
+	arg := args[1]
+	lb := d.lenLB(call.Block(), nil)
+	if sl, isSl := arg.(*ssa.Slice); isSl && d.isData(sl.X) && sl.Max == nil {
+		lo, isK := int64(0), true
+		if sl.Low != nil {
+			lo, isK = constInt(sl.Low)
+		}
+		if !isK || lo < 0 {
+			return false
+		}
+		if sl.High == nil {
+			return lb >= lo+need
+		}
+		hi, isH := constInt(sl.High)
+		return isH && hi-lo >= need && lb >= hi
+	}
+	return d.isData(arg) && lb >= need
+}
+
 func posFileLine(p *Program, pos token.Pos) (string, int) {
 	ps := p.Fset.Position(pos)
 	f := strings.TrimPrefix(ps.Filename, p.RepoDir+"/")
@@ -341,6 +382,11 @@ func checkPanicFree(c *Check, p *Program, rule string, fn *ssa.Function, pl *Pan
 					// (a 64-bit word misaligned on 32-bit platforms) is PLATFORM.atomic64
 					continue
 				}
+				if n := byteOrderWidth(f); n > 0 {
+					// encoding/binary's fixed-width accessors index their argument: in range iff it holds n octets
+					c.Decide(byteOrderArgOK(d, x, n), rule, key("byte-order access "+f.Name()), pos, fmt.Sprintf("the slice handed over holds at least %d octets by the dominating length guard", n), fmt.Sprintf("encoding/binary %s on a slice that may hold fewer than %d octets: it panics for some input", f.Name(), n))
+					continue
+				}
 				if _, ok := externalAllowed[f.String()]; !ok {
 					c.Fail(rule, key("external-call "+f.String()), pos, "call leaves the module to a function whose behaviour on arbitrary input is not on the allow-list")
 				}
@@ -542,6 +588,10 @@ func checkC01(c *Check, p *Program) {
 					return
 				}
 				logSink := p.Func("knx/util", "Log")
+				// encoding/binary's byte orders are values of empty struct types: nothing to mutate
+				if st, isSt := deref(g.Type()).Underlying().(*types.Struct); isSt && st.NumFields() == 0 && g.Pkg != nil && g.Pkg.Pkg.Path() == "encoding/binary" {
+					return
+				}
 				okG := (logSink != nil && topOf(f) == logSink) || g.Name() == "Logger" || g.Name() == "stringDecoder" || g.Name() == "longestLogger" || types.Identical(deref(g.Type()), types.Universe.Lookup("error").Type()) || g.Name() == "stringCharmap"
 				c.Decide(okG, "C01.c", FuncName(f)+" reads global "+g.Name(), p.InstrPos(in), "logger / stateless decoder / error value", "decode result depends on mutable package-level state")
 			})
